@@ -416,6 +416,17 @@ def fault_trial(case, i, k, after, root):
             cnt = R.r.db.count(tf.TimeQuery().noop())
             ln = len(R.r.db)
             live = dict(all=allp, count=cnt, len=ln)
+            if R.r.db.index.valid:
+                import fam_hist
+                from tinyflux.index import Index
+
+                fresh = Index()
+                fresh.build([R.r.db._storage._deserialize_storage_item(x) for x in R.r.db._storage])
+                for pr in fam_hist.probes():
+                    a1, a2 = fam_hist.safe_idx(R.r, R.r.db.index, pr), fam_hist.safe_idx(R.r, fresh, pr)
+                    if a1 != a2:
+                        live["index_drift"] = f"{V.sx(pr)}: the valid index answers {a1}, one rebuilt from storage {a2}"
+                        break
         except Exception as e:
             live = dict(error=type(e).__name__)
         obs["live"] = live
@@ -557,6 +568,8 @@ def check_fault(obs, old, new, is_ins, rec, k, after):
             return f"{where}: the live database holds {live['all']} — neither old {old} nor new {new}"
         if live["all"] != obs["file"]:
             return f"{where}: the live database answers {live['all']} but its file holds {obs['file']}"
+        if live.get("index_drift"):
+            return f"{where}: afterwards the index claims to be valid but disagrees with storage — {live['index_drift']}"
     return None
 
 
@@ -584,7 +597,7 @@ class Family:
         base = C.seed() * 7907 + int(prop[1:]) * 101
         cases = [gen_case(base * 100003 + i, prop, i) for i in range(n)]
         if prop in ("C12", "C04") or (prop == "C13" and tier == "thorough"):
-            cases = [huge_case(base + v, v) for v in range(1 if tier == "quick" or prop == "C13" else 2)] + cases
+            cases = [huge_case(base + v, v) for v in range(2 if prop == "C12" or (tier == "thorough" and prop != "C13") else 1)] + cases
         if prop == "C15":
             cases = [c for c in cases if c.get("mode", "r+") == "r+"]   # other modes: dedicated check below
         root = tempfile.mkdtemp(prefix="vf_io_")
